@@ -173,10 +173,22 @@ def algorithm(ctx, pl):
         for c in PR.calls_in(f.node):
             if U(c.func).startswith('hashlib.'):
                 news.append((f, c))
+    # a fresh hash object per conversion: created inside the function that drives one conversion (or inside a run()
+    # body), never in a constructor / kept on an object that can run several conversions
+    stale = [(f_, c_) for (f_, c_) in news if f_.name == '__init__' or isinstance(enclosing_stmt(c_), ast.Assign) and
+             U(enclosing_stmt(c_).targets[0]).startswith('self.')]
+    for (f_, c_) in stale:
+        ctx.fail('C20.2', f_, enclosing_stmt(c_), 'the running hash object is created in %s and kept on the object: a second run() of '
+                 'the same converter continues the first run\'s hash state, so every file after the first stores the hash of '
+                 'the concatenated inputs' % f_.qualname, line=c_.lineno)
+    if stale:
+        return
     if len(news) != 1:
         ctx.fail('C20.2', pl.main, pl.main.name, '%d hash objects are created (must be one per conversion)' % len(news))
         return
     f, c = news[0]
+    if f is not pl.main and f.name != 'run':
+        raise AnalysisError('the hash object is created in %s: not understood' % f.qualname)
     alg = c.args[0].value if U(c.func) == 'hashlib.new' and c.args and isinstance(c.args[0], ast.Constant) else \
         U(c.func).split('.')[-1]
     if alg != 'sha1':
